@@ -77,9 +77,12 @@ class Path(object):
         self.conds = conds
         self.divs = divs if divs is not None else []   # denominators evaluated on this path
         self.logs = logs if logs is not None else []   # log arguments evaluated on this path
+        self.ctrl = None                               # 'break' / 'continue' pending
 
     def fork(self):
-        return Path(dict(self.env), list(self.conds), list(self.divs), list(self.logs))
+        p = Path(dict(self.env), list(self.conds), list(self.divs), list(self.logs))
+        p.ctrl = self.ctrl
+        return p
 
 
 class Evaluator(object):
@@ -92,8 +95,14 @@ class Evaluator(object):
         self.len_syms = len_syms or {}
         self.max_paths = max_paths
         self.outcomes = []
-        self.loop_mode = None     # "body_once": bind the loop variable symbolically, run the body once
+        self.loop_mode = None     # "body_once" | "unroll2": bind the loop variable symbolically, run the body 1x / 2x
         self.loops = []
+        self.merge_ifs = False    # if-conversion: join the two branches of an if into ifexp() values (no path explosion)
+        self.events = []          # assignment / store / call events with path conditions and loop stack
+        self.record = False
+        self.loop_stack = []
+        self.iter_tag = []
+        self.no_thread_prefixes = ()   # stores into these roots are recorded as events only (heap objects)
 
     # -- expressions ---------------------------------------------------------------------
     def ev(self, node, path):
@@ -243,6 +252,8 @@ class Evaluator(object):
                     return base[int(idx.const_value())]
                 except IndexError:
                     pass
+            if isinstance(idx, Rat) and all(isinstance(b, Rat) for b in base):
+                return form.apply("getitem", [tuple(base), idx])
             return form.apply("expr:" + norm(node), [])
         at = base.as_atom() if isinstance(base, Rat) else None
         if at is not None and at.func == "corrcoef" and isinstance(idx, tuple) and len(idx) == 2:
@@ -259,6 +270,7 @@ class Evaluator(object):
         rname = self.module.resolve(fn) if fn else None
         args = [self.ev(a, path) for a in node.args if not isinstance(a, ast.Starred)]
         kwargs = {k.arg: self.ev(k.value, path) for k in node.keywords if k.arg}
+        self._event("call", path, node, name=rname or norm(node.func), args=args, kwargs=kwargs)
         if self.call_hook is not None:
             r = self.call_hook(self, node, rname, args, kwargs, path)
             if r is not None:
@@ -270,6 +282,14 @@ class Evaluator(object):
             return form.apply("self." + meth, args, kwargs)
         if rname == "len" and len(args) == 1 and isinstance(args[0], list):
             return Rat.const(len(args[0]))
+        if rname == "list" and not args and not kwargs:
+            return []
+        if isinstance(node.func, ast.Attribute) and node.func.attr == "append" and len(args) == 1:
+            tgt = dotted(node.func.value)
+            if tgt is not None and isinstance(path.env.get(tgt), list) and isinstance(args[0], Rat):
+                path.env[tgt] = list(path.env[tgt]) + [args[0]]
+                self._event("assign", path, node, name=tgt, value=path.env[tgt])
+                return Rat.sym("None")
         if rname in FUNCS:
             f = FUNCS[rname]
             if f == "len" and len(args) == 1 and isinstance(args[0], Rat):
@@ -323,29 +343,50 @@ class Evaluator(object):
     ev_JoinedStr = ev_ListComp
 
     # -- statements ----------------------------------------------------------------------
-    def assign(self, target, value, path):
+    def _event(self, kind, path, node, **kw):
+        if self.record:
+            e = {"kind": kind, "conds": list(path.conds), "loops": tuple(self.loop_stack), "iter": tuple(self.iter_tag),
+                 "node": node}
+            e.update(kw)
+            self.events.append(e)
+
+    def assign(self, target, value, path, node=None):
         if isinstance(target, ast.Name):
             path.env[target.id] = value
+            self._event("assign", path, node or target, name=target.id, value=value)
         elif isinstance(target, (ast.Tuple, ast.List)):
             if isinstance(value, list) and len(value) == len(target.elts):
                 for t, v in zip(target.elts, value):
-                    self.assign(t, v, path)
+                    self.assign(t, v, path, node)
             else:
                 for i, t in enumerate(target.elts):
                     v = form.apply("getitem", [value, Rat.const(i)]) if isinstance(value, Rat) else \
                         form.apply("expr:unpack%d" % i, [])
-                    self.assign(t, v, path)
+                    self.assign(t, v, path, node)
         elif isinstance(target, ast.Attribute):
             d = dotted(target)
             if d:
                 path.env[d] = value
+                self._event("assign", path, node or target, name=d, value=value)
         elif isinstance(target, ast.Subscript):
-            d = dotted(target.value)
+            # nested subscripts: root[i][j][k] = v
+            idxs = []
+            t = target
+            while isinstance(t, ast.Subscript):
+                idxs.append(self._index(t.slice, path))
+                t = t.value
+            idxs.reverse()
+            d = dotted(t)
             if d:
-                old = path.env.get(d, Rat.sym(d))
-                idx = self._index(target.slice, path)
+                old = path.env.get(d)
+                if old is None:
+                    old = Rat.sym(d)
+                self._event("store", path, node or target, root=d, indices=idxs, value=value, old=old)
+                if any(d.startswith(pfx) for pfx in self.no_thread_prefixes):
+                    return
                 if isinstance(old, Rat) and isinstance(value, Rat):
-                    path.env[d] = form.apply("setitem", [old, idx if isinstance(idx, (Rat, tuple)) else (idx,), value])
+                    ix = tuple(i if isinstance(i, (Rat, tuple)) else (i,) for i in idxs)
+                    path.env[d] = form.apply("setitem", [old, ix if len(ix) > 1 else ix[0], value])
 
     def exec_block(self, stmts, paths):
         for st in stmts:
@@ -353,7 +394,10 @@ class Evaluator(object):
                 break
             nxt = []
             for p in paths:
-                nxt.extend(self.exec_stmt(st, p))
+                if p.ctrl is not None:
+                    nxt.append(p)
+                else:
+                    nxt.extend(self.exec_stmt(st, p))
             paths = nxt
             if len(paths) > self.max_paths:
                 raise Undecided("more than %d paths" % self.max_paths)
@@ -371,13 +415,13 @@ class Evaluator(object):
         if isinstance(st, ast.Assign):
             v = self.ev(st.value, path)
             for t in st.targets:
-                self.assign(t, v, path)
+                self.assign(t, v, path, st)
             return [path]
         if isinstance(st, ast.AugAssign):
             fake = ast.BinOp(left=_as_load(st.target), op=st.op, right=st.value)
             ast.copy_location(fake, st)
             v = self.ev(fake, path)
-            self.assign(st.target, v, path)
+            self.assign(st.target, v, path, st)
             return [path]
         if isinstance(st, ast.AnnAssign):
             if st.value is not None:
@@ -405,20 +449,47 @@ class Evaluator(object):
             p1.conds.append((c, True))
             p2 = path.fork()
             p2.conds.append((c, False))
-            return self.exec_block(st.body, [p1]) + self.exec_block(st.orelse, [p2])
+            l1 = self.exec_block(st.body, [p1])
+            l2 = self.exec_block(st.orelse, [p2])
+            if self.merge_ifs and len(l1) == 1 and len(l2) == 1 and l1[0].ctrl == l2[0].ctrl:
+                return [self._merge(path, c, l1[0], l2[0])]
+            return l1 + l2
         if isinstance(st, (ast.Pass, ast.Assert, ast.Import, ast.ImportFrom, ast.Global, ast.Nonlocal)):
+            return [path]
+        if isinstance(st, ast.Break):
+            path.ctrl = "break"
+            return [path]
+        if isinstance(st, ast.Continue):
+            path.ctrl = "continue"
             return [path]
         if isinstance(st, ast.Raise):
             self.outcomes.append(Outcome(path.conds, None, "raise", st))
             return []
         if isinstance(st, ast.With):
             return self.exec_block(st.body, [path])
-        if isinstance(st, ast.For) and self.loop_mode == "body_once":
+        if isinstance(st, ast.For) and self.loop_mode in ("body_once", "unroll2"):
             it = self.ev(st.iter, path)
-            self.loops.append({"node": st, "iter": it, "path": path})
-            self.assign(st.target, _loop_value(st, it), path)
-            live = self.exec_block(st.body, [path])
-            return live
+            self.loops.append({"node": st, "iter": it, "path": path, "conds": list(path.conds)})
+            n_iter = 2 if self.loop_mode == "unroll2" else 1
+            live = [path]
+            done = []
+            self.loop_stack.append(st)
+            for k in range(n_iter):
+                self.iter_tag.append(k + 1)
+                nxt = []
+                for p in live:
+                    self.assign(st.target, _loop_value(st, it, "#%d" % (k + 1) if n_iter > 1 else ""), p, st)
+                    for q in self.exec_block(st.body, [p]):
+                        if q.ctrl == "break":
+                            q.ctrl = None
+                            done.append(q)
+                        else:
+                            q.ctrl = None
+                            nxt.append(q)
+                live = nxt
+                self.iter_tag.pop()
+            self.loop_stack.pop()
+            return live + done
         if isinstance(st, (ast.For, ast.While)):
             raise Undecided("loop at line %d" % st.lineno)
         if isinstance(st, ast.Try):
@@ -426,6 +497,29 @@ class Evaluator(object):
         if isinstance(st, (ast.FunctionDef, ast.ClassDef)):
             return [path]
         raise Undecided("statement %s" % type(st).__name__)
+
+    def _merge(self, base, c, p1, p2):
+        """Join the two branches of an if: differing values become ifexp(c, v1, v2)."""
+        env = {}
+        for k in set(p1.env) | set(p2.env):
+            v1, v2 = p1.env.get(k), p2.env.get(k)
+            if v1 is None or v2 is None:
+                a = v1 if v1 is not None else Rat.sym("undef")
+                b = v2 if v2 is not None else Rat.sym("undef")
+                env[k] = form.apply("ifexp", [c, a, b]) if isinstance(a, Rat) and isinstance(b, Rat) else (v1 if v1 is not None else v2)
+            elif isinstance(v1, Rat) and isinstance(v2, Rat):
+                env[k] = v1 if (v1 is v2 or v1.key() == v2.key()) else form.apply("ifexp", [c, v1, v2])
+            elif isinstance(v1, list) and isinstance(v2, list) and len(v1) == len(v2):
+                env[k] = [a if (isinstance(a, Rat) and isinstance(b, Rat) and a.key() == b.key()) else
+                          (form.apply("ifexp", [c, a, b]) if isinstance(a, Rat) and isinstance(b, Rat) else a)
+                          for a, b in zip(v1, v2)]
+            else:
+                a = form.apply("pylist", [tuple(v1)]) if isinstance(v1, list) and all(isinstance(x, Rat) for x in v1) else v1
+                b = form.apply("pylist", [tuple(v2)]) if isinstance(v2, list) and all(isinstance(x, Rat) for x in v2) else v2
+                env[k] = form.apply("ifexp", [c, a, b]) if isinstance(a, Rat) and isinstance(b, Rat) else v1
+        out = Path(env, list(base.conds), list(p1.divs) + [d for d in p2.divs if d not in p1.divs],
+                   list(p1.logs) + [d for d in p2.logs if d not in p1.logs])
+        return out
 
     def known_polarity(self, c, path):
         """Polarity of condition c if the path already decided it (or its negation)."""
@@ -463,11 +557,11 @@ class Evaluator(object):
         return self.outcomes
 
 
-def _loop_value(st, it):
+def _loop_value(st, it, tag=""):
     """Symbolic value of the loop variable(s) for one generic iteration."""
     def mk(t):
         if isinstance(t, ast.Name):
-            return Rat.sym(t.id)
+            return Rat.sym(t.id + tag)
         if isinstance(t, (ast.Tuple, ast.List)):
             return [mk(e) for e in t.elts]
         return Rat.sym(norm(t))
@@ -477,7 +571,7 @@ def _loop_value(st, it):
         idx = mk(st.target.elts[0])
         return [idx, form.apply("getitem", [at.args[0], idx])]
     if at is not None and at.func != "call:range" and isinstance(st.target, ast.Name):
-        return form.apply("elem", [it])
+        return form.apply("elem" + tag, [it])
     return mk(st.target)
 
 
